@@ -174,6 +174,33 @@ def add_param(selector, p):
       add_param(sub, kid)
 
 
+def add_children_only(selector, p):
+  """Attaches the subtree of an already added parameter `p`."""
+  k = p['kind']
+  for vals, kids in p.get('children', []):
+    sel_vals = list(vals)
+    if k == 'BOOL' and p.get('select_as_bool'):
+      sel_vals = [v == 'True' for v in vals]
+    sub = selector.select(p['name'], sel_vals)
+    for kid in kids:
+      add_param(sub, kid)
+
+
+def build_tree_queried_while_flat(tree, probe):
+  """Builds the same space in two stages: first only the top-level parameters
+  (a flat space), on which `probe(space)` is called (the user looks at / queries
+  the space early), then the conditional children are attached to the *same*
+  object. Whatever the space answered while flat must not stick."""
+  from vizier import pyvizier as vz
+  space = vz.SearchSpace()
+  for p in tree:
+    add_param(space.root, dict(p, children=[]))
+  probe(space)
+  for p in tree:
+    add_children_only(space.root, p)
+  return space
+
+
 def build_tree(tree):
   from vizier import pyvizier as vz
   from vv import common
